@@ -33,7 +33,7 @@ def load_props():
 def contracts_module_of(reg, target):
     import importlib
     for f in sorted(os.listdir(os.path.join(VERIF, 'contracts'))):
-        if f.endswith('.py') and not f.startswith('_'):
+        if f.endswith('.py') and not f.startswith('_') and f != 'ghost_programs.py':
             mod = importlib.import_module('contracts.' + f[:-3])
             for c in getattr(mod, 'CONTRACTS', []):
                 if c.target == target:
